@@ -681,9 +681,25 @@ def eval_char_pred(g, ch, fuel=400):
                 raise mir.AnchorMissing(f"{g.path}: non-scalar constant")
             return int(op["v"])
         pl = op.get("cp") or op.get("mv")
-        if pl is None or pl.get("p") or pl["l"] not in env:
+        if pl is None:
             raise mir.AnchorMissing(f"{g.path}: operand {op} not evaluable")
-        return env[pl["l"]]
+        return place(pl)
+
+    def place(pl):
+        if pl["l"] not in env:
+            raise mir.AnchorMissing(f"{g.path}: local _{pl['l']} not evaluable")
+        v = env[pl["l"]]
+        for e in pl.get("p", []):
+            if e == "*" and isinstance(v, tuple) and v[0] == "ref":
+                v = place(v[1])
+            else:
+                raise mir.AnchorMissing(f"{g.path}: projection {e} not evaluable")
+        return v
+
+    def scalar(v):
+        while isinstance(v, tuple) and v[0] == "ref":       # `c.is_ascii_graphic()` takes &self
+            v = place(v[1])
+        return v
     ops = {"Eq": lambda a, b: a == b, "Ne": lambda a, b: a != b, "Lt": lambda a, b: a < b, "Le": lambda a, b: a <= b,
            "Gt": lambda a, b: a > b, "Ge": lambda a, b: a >= b, "BitAnd": lambda a, b: a & b, "BitOr": lambda a, b: a | b,
            "BitXor": lambda a, b: a ^ b}
@@ -699,11 +715,13 @@ def eval_char_pred(g, ch, fuel=400):
             if rv["k"] == "use":
                 v = val(rv["o"])
             elif rv["k"] == "un" and rv["op"] == "Not":
-                v = int(not val(rv["a"]))
+                v = int(not scalar(val(rv["a"])))
             elif rv["k"] == "bin" and rv["op"] in ops:
-                v = int(ops[rv["op"]](val(rv["a"]), val(rv["b"])))
+                v = int(ops[rv["op"]](scalar(val(rv["a"])), scalar(val(rv["b"]))))
             elif rv["k"] == "cast":
                 v = val(rv["o"])
+            elif rv["k"] in ("ref", "rawptr"):
+                v = ("ref", rv["p"])
             else:
                 raise mir.AnchorMissing(f"{g.path}: rvalue {rv['k']} not evaluable")
             env[st["p"]["l"]] = v
@@ -711,17 +729,17 @@ def eval_char_pred(g, ch, fuel=400):
         if t["k"] == "return":
             if 0 not in env:
                 raise mir.AnchorMissing(f"{g.path}: no return value")
-            return bool(env[0])
+            return bool(scalar(env[0]))
         if t["k"] == "goto":
             b = t["t"]
         elif t["k"] == "switch":
-            v = val(t["d"])
+            v = scalar(val(t["d"]))
             b = dict((int(x), y) for x, y in t["ts"]).get(v, t["else"])
         elif t["k"] == "call":
             name = mir.norm(t.get("res") or t.get("fn") or "").split("::")[-1]
             if name not in known or t["d"].get("p") or t["t"] < 0:
                 raise mir.AnchorMissing(f"{g.path}: call {name} not evaluable")
-            env[t["d"]["l"]] = int(known[name](val(t["args"][0])))
+            env[t["d"]["l"]] = int(known[name](scalar(val(t["args"][0]))))
             b = t["t"]
         elif t["k"] in ("assert", "drop"):
             b = t["t"]
